@@ -1,4 +1,5 @@
 (* C10 -- `include.  Property theorems only; proofs live in PP/IgnoreFacts.v, PP/EvalFacts.v. *)
+From SV Require LineFacts.
 From SV Require Import Eval EvalFacts IgnoreFacts IncludeFacts.
 
 (* Which file an `include names: the name as given when it is absolute or exists relative to
@@ -64,3 +65,37 @@ Proof.
   intros c rec s p strip rdepth idepth t inner sym kw lit l fl x e Ht Hk Hi Hl Hf Hline Hp.
   rewrite (include_literal c rec s p strip rdepth idepth t inner sym kw lit l fl x Ht Hk Hi Hl Hf Hline). now rewrite Hp.
 Qed.
+
+(* The same-line rule.  An `include is rejected with IncludeLine when the last item before it ended on its
+   line; an item (text that is not blank on that line, or a directive) that starts on the line of the last
+   `include is rejected too; white space and comments are no items. *)
+Theorem C10_include_behind_an_item_rejected : forall c rec s p strip rd idp t l x,
+  node_locate t = ROk l -> s_item x = Some (l_line l) ->
+  include_enter c rec s p strip rd idp t x = RErr EIncludeLine.
+Proof. exact LineFacts.include_after_item. Qed.
+
+Theorem C10_text_behind_an_include_rejected : forall s t l x,
+  kind t = K_SourceDescriptionNotDirective -> node_locate t = ROk l -> s_inc x = Some (l_line l) ->
+  trim (first_line (lstr s l)) <> [] -> step2 s (Enter t) x = RErr EIncludeLine.
+Proof. exact LineFacts.text_after_include. Qed.
+
+Theorem C10_directive_behind_an_include_rejected : forall s t l x,
+  kind t = K_CompilerDirective -> node_locate t = ROk l -> s_inc x = Some (l_line l) ->
+  step2 s (Enter t) x = RErr EIncludeLine.
+Proof. exact LineFacts.directive_after_include. Qed.
+
+Theorem C10_blank_behind_an_include_accepted : forall s t l x,
+  kind t = K_SourceDescriptionNotDirective -> node_locate t = ROk l ->
+  trim (first_line (lstr s l)) = [] -> step2 s (Enter t) x = ROk x.
+Proof. exact LineFacts.blank_after_include. Qed.
+
+(* the line on which an item ends: the line of its first byte plus the line breaks in front of its last
+   non-blank byte -- trailing white space does not count, leading line breaks do *)
+Theorem C10_item_line_recorded : forall s t l x,
+  kind t = K_SourceDescriptionNotDirective -> node_locate t = ROk l -> trim (lstr s l) <> [] ->
+  exists x', step2 s (Leave t) x = ROk x' /\ s_item x' = Some (l_line l + count_nl (trim_end (lstr s l))).
+Proof. exact LineFacts.item_line_recorded. Qed.
+
+Theorem C10_item_end_line : forall a c w, is_ws c = false -> forallb is_ws w = true ->
+  count_nl (trim_end (a ++ [c] ++ w)) = count_nl a.
+Proof. exact LineFacts.item_end_line. Qed.
